@@ -526,6 +526,15 @@ func scaleText(family string, n int) string {
 			sb.WriteString("+x")
 		}
 		sb.WriteString("\ndat 0\nrof\n")
+	case "silent_labelled_blocks": // n/3 labelled blocks that emit nothing; all their labels end up on one instruction
+		for i := 0; i < n/3; i++ {
+			if i%2 == 0 {
+				fmt.Fprintf(&sb, "a%d i%d for 1\n;c\nrof\n", i, i)
+			} else {
+				fmt.Fprintf(&sb, "a%d i%d for 0\ndat 1\nrof\n", i, i)
+			}
+		}
+		sb.WriteString("dat a0\n")
 	case "for_counter_labels": // n/40 labelled blocks whose labels are used
 		for i := 0; i < n/40; i++ {
 			fmt.Fprintf(&sb, "b%d i for 2\ndat i, b%d\nrof\n", i, i)
@@ -538,7 +547,7 @@ func scaleText(family string, n int) string {
 }
 
 var scaleFamilies = []string{"for_blocks", "for_blocks_equ", "equ_chain", "equ_fanout", "equ_many", "labels", "lines", "comments", "for_flat", "one_label_many_names",
-	"strategy_lines", "name_lines", "assert_lines", "nested_for", "gap_labels", "equ_use", "long_exprs", "end_expr", "equ_chain_uses", "colon_labels", "for_counter_labels", "for_blocks_chain", "nested_depth", "wide_substitution", "wide_substitution_count"}
+	"strategy_lines", "name_lines", "assert_lines", "nested_for", "gap_labels", "equ_use", "long_exprs", "end_expr", "equ_chain_uses", "colon_labels", "for_counter_labels", "for_blocks_chain", "nested_depth", "wide_substitution", "wide_substitution_count", "silent_labelled_blocks"}
 
 var scaleSizes = []int{12000, 16000, 14000}
 
@@ -608,7 +617,7 @@ func judgeScaleCase(t testing.TB) func(c scaleCase, rec *hx.Rec) string {
 	}
 }
 
-const c05ScalingRule = "time proportional to input size: every structured family (n/40 sequential FOR blocks among plain lines, the same with counts that go through an EQU chain of depth n/8, n/80 blocks inside one another, one operand or FOR count naming a 4095-token EQU n/8 times, the same after n/4 unrelated EQU lines, labelled blocks whose labels are used, three nested blocks with n copies, one flat FOR of n, EQU chain of depth n, one EQU referring to n symbols, n independent EQUs, one EQU used by n lines, a 20-deep EQU chain used by n lines, n labelled lines (plain and colon form), n label names on one instruction, n labels each followed by a comment line, n plain lines, long sums on every tenth line, END with a label after n lines, n comment lines, n ;strategy lines, n ;name/;author lines, n ;assert lines) is assembled at n and at 5n (n in {12000, 14000, 16000}: the quick tier takes one size per family chosen by the seed, the thorough tier all three) in the isolated worker under a valid configuration (core 2^34, length limit 2^30); it is a violation when the larger run takes more than 300 ms and more than 12 times the smaller one (linear: about 5, quadratic: 25) and still does after re-measuring both (best of three). Every case is non-trivial; distinct by (family, n)."
+const c05ScalingRule = "time proportional to input size: every structured family (n/40 sequential FOR blocks among plain lines, the same with counts that go through an EQU chain of depth n/8, n/80 blocks inside one another, n/3 labelled blocks that emit nothing, one operand or FOR count naming a 4095-token EQU n/8 times, the same after n/4 unrelated EQU lines, labelled blocks whose labels are used, three nested blocks with n copies, one flat FOR of n, EQU chain of depth n, one EQU referring to n symbols, n independent EQUs, one EQU used by n lines, a 20-deep EQU chain used by n lines, n labelled lines (plain and colon form), n label names on one instruction, n labels each followed by a comment line, n plain lines, long sums on every tenth line, END with a label after n lines, n comment lines, n ;strategy lines, n ;name/;author lines, n ;assert lines) is assembled at n and at 5n (n in {12000, 14000, 16000}: the quick tier takes one size per family chosen by the seed, the thorough tier all three) in the isolated worker under a valid configuration (core 2^34, length limit 2^30); it is a violation when the larger run takes more than 300 ms and more than 12 times the smaller one (linear: about 5, quadratic: 25) and still does after re-measuring both (best of three). Every case is non-trivial; distinct by (family, n)."
 
 func TestC05_Scaling(t *testing.T) {
 	if hx.Shard() != 0 {
